@@ -8,7 +8,7 @@ CHECKS = {
  "C01": ("exploration", "property-based testing (proptest): generated element recipes and near-miss byte strings vs. big-integer specification model; round-trip + differential oracle",
          "Generated-input search: every element recipe / byte string explored round-trips and agrees with the model's decodeSpec/encodeSpec; no absence claim beyond the cases explored.",
          "Trusts the BigUint port of ristretto.sage's encodeSpec/decodeSpec and the read-only coordinate hook.", "5/C01"),
- "C02": ("exploration", "property-based testing (proptest): structured near-miss byte strings and slices of every length vs. the model's decodeSpec, through all 18 decoding entry points (differential between entry points and against the model)",
+ "C02": ("exploration", "property-based testing (proptest): structured near-miss byte strings and slices of every length vs. the model's decodeSpec, through every decoding entry point of both configurations (conversions, stream deserialisers on whole, fragmented and interrupted readers, containers and the unchecked mode where implemented) (differential between entry points and against the model)",
          "Generated-input search over near-miss families (aliases s+kq, q-s, all single-bit flips, boundary values) and all slice lengths 0..=80; every entry point must give the model's verdict and element.",
          "Trusts the BigUint decodeSpec port; stream deserialisers may use any error kind.", "5/C02"),
  "C03": ("exploration", "property-based testing (proptest): groups of representations of one element (torsion shift, rescaling, affine round trip, (r-1)*(-P)) through every byte-producing path vs. the model's encodeSpec (metamorphic + differential oracle)",
